@@ -94,6 +94,9 @@ pub fn general(r: &mut Rng, corpus: &Corpus, tier: Tier) -> (String, Src) {
 pub const FAMILIES: &[(&str, &str, &str, &str)] = &[
     // (name, prefix, unit, suffix)
     ("mcall-open", "", "%m(", ""),
+    ("mcall-1char-args", "%m(", "a ,", "z);\ndata a; x = 1; run;\n"),
+    ("mcall-empty-call-list", "%m(", "%a(),", "z);\n%put done;\n"),
+    ("mcall-named-1char", "%m(", "a=1,", "b);\nx = 1;\n"),
     ("dquote", "", "\"", ""),
     ("squote", "", "'", ""),
     ("ccomment-open", "", "/*", ""),
